@@ -856,6 +856,15 @@ def _d2_d3(ctx):
                        'before parsing', rc.loc(n))
     if n_texts == 0:
         ck.bad('C20-D3', rc.qual, 'pool.load_robots_txt(url_info, <body text>)', 'no robots.txt text is handed to the parser', rc.loc())
+    # ... and handed over as it was read: the caller turns a ValueError from the load into "no rules" (a file the parser
+    # cannot read), so a conversion of our own that can fail on some byte (a strict decode) throws a readable file away
+    from ..escape import Escape
+    esc = Escape(repo, ctx.res)
+    lr = repo.func('wpull.robotstxt:RobotsTxtPool.load_robots_txt')
+    own = [it for it in esc.escapes(lr) if esc.is_sub(it.type, 'ValueError') and 'wpull/thirdparty/' not in it.origin]
+    ck.expect(not own, 'C20-D3', lr.qual, 'nothing between the read and the parser can fail on the bytes of the file',
+              'a step before the parser can raise %s on some robots.txt bytes; the checker accepts the file as blank then and every '
+              'disallowed URL of that origin is requested' % ', '.join(sorted({'%s (%s)' % (it.type, it.origin) for it in own}))[:300], lr.loc())
 
 
 # ---------------------------------------------------------------------- D4
